@@ -47,11 +47,17 @@ def run(v):
     if r.violated:
         v.failure({"kind": "model", "invariant": r.violated}, {"tlc_output": r.output[-3000:]})
     common.check_coverage(r, ["Load", "Create", "WriteFlush", "Done", "Crash"], "MC_DictFile")
-    v.add_mc(f"MC_DictFile/{t}", r, "all histories of <= 3 add-word commands over {a, A, b} with a crash between any two "
+    v.add_mc(f"MC_DictFile/{t}", r, "all histories of <= 3 add-word commands over {a, A, b}, starting from no file, an empty file or a "
+             "hand-written file of one or two words with or without a final line terminator, with a crash between any two "
              "steps of a save: NeverLosesExceptKnown (named deviations: truncate-before-write, case-folded ids)")
     rs = common.tlc(os.path.join(SPEC, "mc", "MC_DictFile.tla"), os.path.join(SPEC, "mc", "MC_DictFile_strict.cfg"),
                     "c07_mc_strict", workers=4, timeout=900, coverage=False)
     v.cov["design_level_counterexample_without_named_deviations"] = bool(rs.violated)
+    # a seeded deviation (append the word instead of rewriting the file) must be refuted
+    rd = common.tlc(os.path.join(SPEC, "mc", "MC_DictFile.tla"), os.path.join(SPEC, "mc", "MC_DictFile_dev_append.cfg"),
+                    "c07_mc_dev", workers=2, timeout=600, coverage=False)
+    if rd.violated != "NeverLosesExceptKnown":
+        raise common.ToolError("MC_DictFile: the append-only deviation is not refuted (vacuous invariant)")
     r2 = common.tlc(os.path.join(SPEC, "mc", "MC_JsLinter.tla"), os.path.join(SPEC, "mc", "MC_JsLinter_quick.cfg"),
                     "c07_mc_js", workers=8, timeout=1800, coverage=False)
     if r2.violated:
@@ -64,7 +70,8 @@ def run(v):
         raise common.ToolError("hv c07 failed: " + err[-2000:])
     v.cov["distinct_nontrivial"] = validate(v, trace, "t")
     v.cov["rule"] = ("sessions on the real harper-ls Backend (in process) over a real directory with two open documents: "
-                     "(1) for the user and the file dictionary, one completed add followed by a second add killed after k "
+                     "(1b) a dictionary file that exists before the server starts (one or two words, LF or CRLF, last line "
+                     "terminated or not), then adds to both scopes and a restart; (1) for the user and the file dictionary, one completed add followed by a second add killed after k "
                      "polls of its handler, for every k until the command finishes (every await point of the save); (2) "
                      "random histories of user/file adds (case variants, non-ASCII), restarts and crashes; after every "
                      "step the dictionary files are read back and both documents re-published; distinct = distinct "
